@@ -55,7 +55,7 @@ func vMutate(z *Bitmap, mk int) {
 // VerifC07Op: a producing operation, then ONE mutation of one of the live bitmaps; every other bitmap keeps its
 // representation-level content (snapshots), and read-only operations leave their arguments and the argument slice alone.
 //
-//	params: op, pre (1: input a is a copy-on-write clone of a0, which must stay untouched too), mut (0 result, 1 a, 2 b, 3 a0), mk, w (workers), a*, b*
+//	params: op, pre (1: input a is a copy-on-write clone of a0, which must stay untouched too), mut (0 result, 1 a, 2 b, 3 a0, 4 c), emp (1: empty member in the list, 2: third member c, 3: single member), mk, w (workers), a*, b*
 func VerifC07Op() {
 	op, pre, mut, mk := vsym.Param("op"), vsym.Param("pre"), vsym.Param("mut"), vsym.Param("mk")
 	a, _ := vGenBitmap("a")
@@ -73,8 +73,17 @@ func VerifC07Op() {
 	}
 	w := vsym.Param("w")
 	args := []*Bitmap{a, b, a}
-	if vsym.Param("emp") == 1 {
+	var c *Bitmap
+	var snapC *vBSnap
+	switch vsym.Param("emp") {
+	case 1:
 		args = []*Bitmap{a, NewBitmap(), b}
+	case 2: // three distinct members
+		c, _ = vGenBitmap("c")
+		snapC = vBSnapshot(c)
+		args = []*Bitmap{a, b, c}
+	case 3: // a single member
+		args = []*Bitmap{a}
 	}
 	keep := append([]*Bitmap(nil), args...)
 	var r *Bitmap
@@ -133,6 +142,9 @@ func VerifC07Op() {
 	if a0 != nil {
 		vBUnchanged(a0, snapA0, "clone-source-modified")
 	}
+	if c != nil {
+		vBUnchanged(c, snapC, "argument-modified")
+	}
 	sameSlice := true
 	for i := range keep {
 		if args[i] != keep[i] {
@@ -157,6 +169,13 @@ func VerifC07Op() {
 		if a0 != nil {
 			vMutate(a0, mk)
 		}
+	case 4:
+		if c != nil {
+			vMutate(c, mk)
+		}
+	}
+	if c != nil && mut != 4 {
+		vBUnchanged(c, snapC, "input-changed-by-mutating-another-bitmap")
 	}
 	if mut != 0 && !(inPlace && mut == 1) {
 		vBUnchanged(r, snapR, "result-changed-by-mutating-an-input")
